@@ -1381,6 +1381,35 @@ func main() {
 		observe(ps, "restart")
 		create(b, 2, 2)
 		observe(ps, "create")
+	case "leave-write":
+		// every partition on one node; a node leaves the cluster (its partitions are left without any replica until a
+		// node joins): writes and searches through the remaining nodes keep being answered - with an error for what
+		// cannot be served - and the nodes stay up
+		ds := createDesc(a, 6, 1, 3, pb.Space_Euclidean)
+		observe(ps, "create")
+		if ds == "" {
+			break
+		}
+		time.Sleep(1500 * time.Millisecond)
+		for k := 1; k <= 12; k++ {
+			writeItem(ds, "insert", ps[k%3], k)
+		}
+		ctx, cancel := context.WithTimeout(context.Background(), 15*time.Second)
+		_, err := pb.NewNodesManagerClient(a.conn).RemoveNode(ctx, &pb.Node{Id: 3})
+		cancel()
+		okv, es := 1, ""
+		if err != nil {
+			okv, es = 0, err.Error()
+		}
+		emit(event{"ev": "left", "node": 3, "ok": okv, "err": es})
+		time.Sleep(3 * time.Second) // the leaving node takes itself out of its partitions' replica sets
+		c.kill()
+		observe(ps, "leave")
+		for k := 13; k <= 30; k++ {
+			writeItemN(ds, []string{"insert", "update", "remove"}[k%3], ps[k%2], k, 1)
+		}
+		observe(ps, "leave")
+		findItems(ds, ps, "minority-down")
 	case "leave":
 		ctx, cancel := context.WithTimeout(context.Background(), 5*time.Second)
 		_, err := pb.NewNodesManagerClient(a.conn).RemoveNode(ctx, &pb.Node{Id: 3})
